@@ -24,6 +24,10 @@ pub struct CbCaller {
     pub cancel_after: Option<u64>,
     /// this many identical callers arrive in the same instant
     pub repeat: u8,
+    /// the response future is obtained from call() at `at` but first polled this much later
+    /// (a pre-built batch of futures driven later, a spawn on a busy executor)
+    #[serde(default)]
+    pub poll_delay: u64,
 }
 
 #[derive(Clone, Debug, Serialize, Deserialize)]
@@ -96,13 +100,19 @@ fn case_strategy(tier: Tier) -> BoxedStrategy<CbcCase> {
             1 => (1u64..=60).prop_map(Some),
         ],
         prop_oneof![4 => Just(1u8), 1 => Just(2u8), 2 => 3u8..=6],
+        prop_oneof![
+            6 => Just(0u64),
+            1 => (1u64..=12).prop_map(|k| k * 10),
+            1 => 1u64..=120,
+        ],
     )
-        .prop_map(|(at, clone, step, cancel_after, repeat)| CbCaller {
+        .prop_map(|(at, clone, step, cancel_after, repeat, poll_delay)| CbCaller {
             at,
             clone,
             step,
             cancel_after,
             repeat,
+            poll_delay,
         });
     (
         small_config(),
@@ -149,13 +159,13 @@ impl Handle {
                 let _ = s.poll_ready(&mut std::task::Context::from_waker(
                     futures::task::noop_waker_ref(),
                 ));
-                s.call(req)
+                Box::pin(s.call(req)) as BoxFuture<'static, _>
             }
             Handle::Fb(s) => {
                 let _ = s.poll_ready(&mut std::task::Context::from_waker(
                     futures::task::noop_waker_ref(),
                 ));
-                s.call(req)
+                Box::pin(s.call(req)) as BoxFuture<'static, _>
             }
         }
     }
@@ -225,6 +235,7 @@ async fn interp(case: &CbcCase) -> Verdict {
         clone: u8,
         step: Step,
         cancel_after: Option<u64>,
+        poll_delay: u64,
     }
     let mut callers: Vec<C> = vec![];
     for c in &case.callers {
@@ -234,6 +245,7 @@ async fn interp(case: &CbcCase) -> Verdict {
                 clone: c.clone,
                 step: c.step,
                 cancel_after: c.cancel_after,
+                poll_delay: c.poll_delay,
             });
         }
     }
@@ -266,13 +278,17 @@ async fn interp(case: &CbcCase) -> Verdict {
 
     let horizon = callers
         .iter()
-        .map(|c| c.at + c.cancel_after.unwrap_or(0))
+        .map(|c| c.at + c.cancel_after.unwrap_or(0).max(c.poll_delay))
         .max()
         .unwrap_or(0)
         .max(case.force_open_at.unwrap_or(0))
         + 160;
     let mut task: Vec<Option<usize>> = vec![None; n];
     let mut cancelled_at: Vec<Option<u64>> = vec![None; n];
+    // futures obtained from call() but not yet handed to the executor
+    let mut held: Vec<Option<BoxFuture<'static, Result<Resp, CircuitBreakerError<SErr>>>>> =
+        (0..n).map(|_| None).collect();
+    let mut saw_delayed_poll = false;
 
     for t in 0..=horizon {
         if t > 0 {
@@ -289,13 +305,29 @@ async fn interp(case: &CbcCase) -> Verdict {
                     key: 0,
                     tag: 0xC000 + i as u64,
                 };
-                let fut = clones[(callers[i].clone % case.clones) as usize].call(req);
-                let lg = log.clone();
-                let wrapped = async move {
-                    lg.note("first_poll", i as i64, 0);
-                    fut.await
-                };
-                task[i] = Some(sim.spawn_call(wrapped, map_outcome));
+                held[i] = Some(clones[(callers[i].clone % case.clones) as usize].call(req));
+            }
+        }
+        for i in 0..n {
+            // cancelled before the first poll: the future is dropped without ever being polled
+            if let Some(d) = callers[i].cancel_after {
+                if callers[i].at + d == t && held[i].is_some() && callers[i].poll_delay > d {
+                    held[i] = None;
+                    cancelled_at[i] = Some(t);
+                }
+            }
+            if callers[i].at + callers[i].poll_delay == t {
+                if let Some(fut) = held[i].take() {
+                    if callers[i].poll_delay > 0 {
+                        saw_delayed_poll = true;
+                    }
+                    let lg = log.clone();
+                    let wrapped = async move {
+                        lg.note("first_poll", i as i64, 0);
+                        fut.await
+                    };
+                    task[i] = Some(sim.spawn_call(wrapped, map_outcome));
+                }
             }
         }
         for i in 0..n {
@@ -547,6 +579,9 @@ async fn interp(case: &CbcCase) -> Verdict {
     }
     if cancelled_at.iter().any(|c| c.is_some()) {
         v.classes.push("cancellation");
+    }
+    if saw_delayed_poll {
+        v.classes.push("first_poll_later_than_call");
     }
     v.nontrivial_c03 = saw_open_poll_with_running;
     v.nontrivial_c09 = saw_over_permitted;
